@@ -242,7 +242,7 @@ impl Segment {
                 wire::CMD_NOP => {}
                 wire::CMD_APRD | wire::CMD_APWR | wire::CMD_APRW | wire::CMD_ARMW => {
                     let addressed = d.adp() == 0;
-                    if addressed && dev.will_service() {
+                    if addressed && dev.will_service(d.cmd, ado) {
                         match d.cmd {
                             wire::CMD_APRD | wire::CMD_ARMW => {
                                 if dev.read(ado, &mut d.data, false, now) {
@@ -260,7 +260,7 @@ impl Segment {
                                 bump(dev, d, r as u16 + 2 * w as u16);
                             }
                         }
-                    } else if d.cmd == wire::CMD_ARMW && !addressed && dev.will_service() {
+                    } else if d.cmd == wire::CMD_ARMW && !addressed && dev.will_service(d.cmd, ado) {
                         let data = d.data.clone();
                         if dev.write(ado, &data, now) {
                             bump(dev, d, 1);
@@ -272,7 +272,7 @@ impl Segment {
                 wire::CMD_FPRD | wire::CMD_FPWR | wire::CMD_FPRW | wire::CMD_FRMW => {
                     let addressed = d.adp() == dev.station_address();
                     if addressed {
-                        if dev.will_service() {
+                        if dev.will_service(d.cmd, ado) {
                             match d.cmd {
                                 wire::CMD_FPRD | wire::CMD_FRMW => {
                                     if dev.read(ado, &mut d.data, false, now) {
@@ -294,7 +294,7 @@ impl Segment {
                     } else if d.cmd == wire::CMD_FRMW {
                         // Everybody else takes over the value read from the addressed device (if it
                         // came before them in the ring).
-                        if dev.dc_supported && dev.will_service() {
+                        if dev.dc_supported && dev.will_service(d.cmd, ado) {
                             let data = d.data.clone();
                             if dev.write(ado, &data, now) {
                                 bump(dev, d, 1);
@@ -303,7 +303,7 @@ impl Segment {
                     }
                 }
                 wire::CMD_BRD | wire::CMD_BWR | wire::CMD_BRW => {
-                    if dev.will_service() {
+                    if dev.will_service(d.cmd, ado) {
                         match d.cmd {
                             wire::CMD_BRD => {
                                 if dev.read(ado, &mut d.data, true, now) {
@@ -338,7 +338,7 @@ impl Segment {
                         let f = dev.fmmu(k);
                         f.enabled && (f.logical as u64) < d.logical() as u64 + d.data.len() as u64 && (f.logical as u64 + f.len as u64) > d.logical() as u64
                     });
-                    if any_mapping && dev.will_service() {
+                    if any_mapping && dev.will_service(d.cmd, ado) {
                         let (r, w) = dev.logical_access(d.logical(), &request, &mut d.data, do_read && inputs_live, do_write && outputs_live, now);
                         bump(dev, d, r as u16 + 2 * w as u16 * (d.cmd == wire::CMD_LRW) as u16 + (w && d.cmd == wire::CMD_LWR) as u16);
                     }
